@@ -62,12 +62,17 @@ def result_err_type(ty):
     return None
 
 
+UNIT_ERR_TYPES = set()      # unit structs of the crate (`struct ParseDirectiveTypeError;`): as an error type they say "no" and nothing else, like `()`
+
+
 def is_carrier(ty):
     e = result_err_type(ty)
     if e is not None:
-        return e != "()"
+        return e != "()" and e not in UNIT_ERR_TYPES
     if ty.startswith("&"):
         return False
+    if re.match(r"std::sync::(mpsc|mpmc)::(Sync)?Sender<|std::sync::(mpsc|mpmc)::Receiver<|std::sync::Arc<|std::sync::(Mutex|RwLock)<", ty):
+        return False        # an end of the channel (or a shared handle) is not a message: dropping it loses no error
     return bool(CARRIER_RE.search(ty)) and not ty.startswith("std::result::Result<")
 
 
@@ -163,6 +168,12 @@ def _judge(ctx, b, bb, what, origins, ty, span):
 
 @rule("C04", "R04.1", floor=20)
 def r04_1(ctx):
+    UNIT_ERR_TYPES.clear()
+    for label in ("lib", "bin"):
+        prog = ctx.progs.get(label)
+        for nm, a in (prog.adts.items() if prog else []):
+            if a.get("kind") == "Struct" and len(a.get("variants") or []) == 1 and not a["variants"][0]["fields"]:
+                UNIT_ERR_TYPES.add(nm)
     for label in ("lib", "bin"):
         prog = ctx.progs.get(label)
         if not prog:
